@@ -297,7 +297,11 @@ def resolved_spec(it, run, result, item, value, path):
         cands = it.call(it.getattr(plat, 'default_pib_paths' if item == 'pib' else 'default_tpm_paths'), [], {}, None)
         cands = [env.expanded('expandvars', p) for p in cands]
         want = next((p for p in cands if env.exists(p)), cands[0])
-    ok = isinstance(result, Joined) and result.kind == 'join:' and len(result.parts) == 2
+    if not isinstance(result, Joined):
+        # the value was put together in a way this vocabulary does not follow (an f-string, concatenation ...): no verdict here,
+        # the stand-in decides (a result that IS 'scheme:location' text built differently must not be reported as wrong)
+        raise Unsupported(f'resolve_location result built without ":".join(...): {type(result).__name__}')
+    ok = result.kind == 'join:' and len(result.parts) == 2
     return {'scheme_is_text_before_first_colon': ok and _same(result.parts[0], scheme),
             'location_resolved_existing_then_relative_to_conf_then_default': ok and _same(result.parts[1], want)}
 
